@@ -243,7 +243,7 @@ func main() {
 	}
 	args := lib.ParseArgs()
 	h := &Harness{run: r.NewRunner(200000), out: lib.NewOut(args.Out), info: map[string]interface{}{}, counts: map[string]int{}}
-	r.WatchdogSeconds = 600
+	r.WatchdogSeconds = 120
 	rng := lib.NewRng(args.Seed)
 	thorough := args.Tier == "thorough"
 	small := []int{0, 1, 2, 3, 10}
@@ -314,10 +314,18 @@ func main() {
 			very = append(very, pick())
 		}
 	}
+	// (skipped when the cheaper runs already failed: with a leak the deep runs take very long
+	// and add nothing to the replay)
+	if len(h.failures) > 0 {
+		very = nil
+		h.info["very_deep_runs"] = "skipped: failures at smaller depths"
+	}
+	r.WatchdogSeconds = 150
 	for _, sh := range very {
 		h.shape(sh, []int{10}, []int{100000}, 0, false)
 	}
-	if thorough {
+	if thorough && len(h.failures) == 0 {
+		r.WatchdogSeconds = 1500
 		h.shape(Shape{[]string{"let", "and"}, "def", "val"}, []int{10}, []int{1000000}, 0, false)
 	}
 
